@@ -3,6 +3,7 @@
    setters (Gen/Pool.v), all regenerated from the source.  Identity of the failed futures is Model/TokenFlow.v's business (C03/C04). *)
 From Coq Require Import List Arith Bool.
 From LokyV Require Import Lib.LedgerLib Lib.PoolLib Gen.Ledger Gen.Pool Model.Pool Proofs.PoolThm.
+From LokyV Require Lib.WorkerLib Gen.Worker Proofs.WorkerThm.
 Import ListNotations.
 
 (* at every point of every interleaving of submit / shutdown / deaths / idle exits / completions with the manager walking its lists
@@ -52,3 +53,17 @@ Theorem C02_structure :
   /\ kill_tree_psutil_joins_otherwise = true /\ kill_tree_nopsutil_always_joins = true.
 Proof. repeat split; reflexivity. Qed.
 Print Assumptions C02_structure.
+
+(* ---- inside the worker (Gen/Worker.v) ---- *)
+(* a call item that cannot be decoded in the worker is loud: the traceback is sent and the worker exits with status 1; and a worker
+   never ends cleanly without having announced it (so that any other end is a death the manager must detect) *)
+Theorem C02_worker_never_leaves_silently :
+  forall e, (WorkerLib.get e = WorkerLib.GError -> WorkerLib.wfin (WorkerThm.it e) = WorkerLib.FExit1 /\ In WorkerLib.APutTraceback (WorkerLib.acts (WorkerThm.it e))) /\
+            (WorkerLib.wfin (WorkerThm.it e) = WorkerLib.FReturn -> WorkerLib.count WorkerLib.is_pid (WorkerLib.acts (WorkerThm.it e)) = 1) /\
+            (WorkerLib.wfin (WorkerThm.it e) <> WorkerLib.FReturn -> WorkerLib.count WorkerLib.is_pid (WorkerLib.acts (WorkerThm.it e)) = 0) /\
+            WorkerLib.wfin (WorkerThm.it e) <> WorkerLib.FStuck.
+Proof.
+  intros e. split; [apply WorkerThm.undecodable_item_is_loud|]. destruct (WorkerThm.clean_exit_iff_announced e) as (A & B & _).
+  repeat split; try assumption. apply WorkerThm.iteration_never_stuck.
+Qed.
+Print Assumptions C02_worker_never_leaves_silently.
